@@ -4,6 +4,7 @@ import (
 	"fmt"
 	"time"
 
+	"pmc/internal/comp"
 	"pmc/internal/harness"
 	"pmc/internal/machine"
 	"pmc/internal/model"
@@ -236,6 +237,45 @@ func runC02(tier string) int {
 			}
 		})
 	})
+	// AutoVar leaves ("anywhere a var() operator can be used"): every tree with <= 2 leaves, one of them an AutoVar command
+	// leaf (fixed var name / argument position), in the if/else and while positions, in files that define constants named
+	// like the configured result vars (the leaf tests the var the command writes, whatever constants exist)
+	autoDone := r.Parallel(uint64(2*3*numAutoForms*2), func(w int, idx uint64) {
+		pos := []int{1, 5}[idx%2]
+		x := idx / 2
+		form := int(x % numAutoForms)
+		x /= numAutoForms
+		kind := []int{0, 2, 3}[x%3]
+		shape := int(x / 3) // 0: single leaf, 1: flag && auto
+		var cond *model.Cond
+		auto := &model.Cond{Kind: model.CLeaf, Leaf: autoLeaf(kind, form, 2)}
+		if shape == 0 {
+			cond = auto
+		} else {
+			cond = &model.Cond{Kind: model.COr, L: &model.Cond{Kind: model.CAnd, L: &model.Cond{Kind: model.CLeaf, Leaf: model.LeafForm(0, 1)}, R: auto}, R: &model.Cond{Kind: model.CLeaf, Leaf: model.LeafForm(20, 3)}}
+		}
+		sc := condProgram(cond, pos)
+		scripts := []*model.Script{sc}
+		src := "const VAR_RESULT = VAR_ELSE\nconst avfix = other\n" + model.Print(scripts) // (the var argument of an argument-position command is an ordinary command argument: no constant is named like it)
+		r.Add("autovar_leaf_programs", 1)
+		for _, opt := range []bool{true, false} {
+			ok, rej, st, v, out := checkScripts(scripts, src, opt, machine.Lockstep, &comp.Opts{Cmd: autoCfg})
+			if !ok {
+				r.Report(harness.Violation{Sig: "C02:rejected:" + firstWords(rej, 6), Summary: fmt.Sprintf("well-formed AutoVar condition rejected: %s\n  source: %q", rej, src), Replay: map[string]interface{}{"source": src, "error": rej}})
+				continue
+			}
+			r.Add("evaluations", 1)
+			r.Add("nontrivial", 1)
+			addStats(r, st)
+			if v != nil {
+				r.Report(harness.Violation{Sig: violationSig("C02", v) + ":autovar-leaf", Summary: fmt.Sprintf("AutoVar leaf kind=%d form=%d pos=%d optimize=%v: %s\n  source: %q", kind, form, pos, opt, v, src),
+					Replay: condCase{K: shape + 1, Pos: pos, Source: src, Optimize: opt, Expected: v.A.String(), Actual: v.B.String(), Env: v.Sigma, Trace: v.Trace, Output: out}})
+			}
+		}
+	})
+	if !autoDone {
+		r.NotExhaustive("AutoVar leaf programs not completed")
+	}
 	// the size dimension: chains of K leaves for every K up to a bound, in five operator patterns
 	maxLeaves := 40
 	if tier == "thorough" {
@@ -324,7 +364,7 @@ func runC02(tier string) int {
 	r.Assume("the generator's own expression tree is the reference (no parsing on the oracle side); '!' > '&&' > '||', left to right, short-circuit",
 		"lockstep: each operand read (which flag/var/trainer, strict or not) is an observable event; the environment answers with the operand's value and each side applies its own relation")
 	return r.Finish(r.Get("evaluations"), r.Get("nontrivial"),
-		"every And/Or tree with k leaves x decorations (redundant parentheses / negations on any node, bounded count) x leaf-form assignments (all 30 forms exhaustively for k<=2, rotations beyond, shared-operand variants for k<=3) x 13 condition positions in a script, plus the if/else position in the second inline script of a mapscripts statement and in the second inline entry of a table (if, if/else, elif positions, while, do...while, branches with an empty body, and positions in which the first operand test of the expression is tested again in a neighbouring condition) x optimize on/off; plus chains of K leaves for every K up to the bound in the coverage in 5 operator patterns; each case explored in lockstep over all operand values; non-trivial = at least 2 leaves")
+		"every And/Or tree with k leaves x decorations (redundant parentheses / negations on any node, bounded count) x leaf-form assignments (all 30 forms exhaustively for k<=2, rotations beyond, shared-operand variants for k<=3) x 13 condition positions in a script, plus the if/else position in the second inline script of a mapscripts statement and in the second inline entry of a table (if, if/else, elif positions, while, do...while, branches with an empty body, and positions in which the first operand test of the expression is tested again in a neighbouring condition) x optimize on/off; plus AutoVar command leaves (3 command kinds x 9 forms, alone and inside an &&/|| expression) in files whose constants are named like the configured result vars; plus chains of K leaves for every K up to the bound in the coverage in 5 operator patterns; each case explored in lockstep over all operand values; non-trivial = at least 2 leaves")
 }
 
 // firstLeafCopy returns a fresh leaf condition equal to the first operand test evaluated by c (polarity as written in the leaf).
